@@ -152,12 +152,16 @@ PickWorker ==
           IF w \in cancelCo
           THEN \* the scheduler drops a cancelled coroutine when it pops it
                LET t == wtask[w] IN
-               /\ cancelCo' = cancelCo \ {w} /\ rq' = Tail(rq) /\ wst' = [wst EXCEPT ![w] = "dropped"]
+               /\ cancelCo' = cancelCo \ {w}
                /\ IF Dev("silent_cancel_drop")
                   THEN /\ UNCHANGED <<ctr, tres, waits, pending, notified>>
+                       /\ rq' = Tail(rq) /\ wst' = [wst EXCEPT ![w] = "dropped"]
                        /\ tst' = IF t # 0 THEN [tst EXCEPT ![t] = "orphaned"] ELSE tst
-                  ELSE \* intended: the drop is reported as a cancellation: counter and waiter are settled
-                       /\ ctr' = ctr - 1
+                  ELSE \* intended: the drop is reported as a cancellation: counter and waiter are settled,
+                       \* and the listener replaces the lost worker if work is queued (CoroutineCreator,
+                       \* state Cancelled: "recycle first, then create" - running - 1, then try_grow)
+                       /\ LET g == Grow(tq, ctr - 1, [wst EXCEPT ![w] = "dropped"], Tail(rq))
+                          IN ctr' = g[1] /\ wst' = g[2] /\ rq' = g[3]
                        /\ tst' = IF t # 0 THEN [tst EXCEPT ![t] = "orphaned"] ELSE tst
                        /\ tres' = IF t # 0 THEN [tres EXCEPT ![t] = "stop_err"] ELSE tres
                        /\ waits' = IF t # 0 THEN waits \ {t} ELSE waits
